@@ -64,6 +64,10 @@ def handle : List String → Option String
       let s ← str? h
       let env ← parseEnv envs
       pure (showOutcome (run FP.Gen.FuncTable.baseTable s env []))
+  | ["evx", h, envs] => do           -- the same under WithExperimentalFuncs()
+      let s ← str? h
+      let env ← parseEnv envs
+      pure (showOutcome (run (FP.Model.withExperimental FP.Gen.FuncTable.baseTable) s env []))
   | _ => none
 
 def handleRef : List String → Option String := fun _ => none
